@@ -971,3 +971,83 @@ def const_value(crate, term, depth=0):
         if c and 'v' in c:
             return c['v']
     return None
+
+
+# ---------------------------------------------------------------- how a string is put together
+def _str_piece(t):
+    """one piece of a string recipe: a literal (str) or ('arg', term)"""
+    x = strip_refs(mirlib.simplify(t))
+    for _ in range(6):
+        if is_call(x) and x[3] in ('as_str', 'deref', 'as_ref', 'borrow', 'as_mut_str') and x[2]:
+            x = strip_refs(x[2][0])
+        elif x and x[0] == 'cast' and len(x) > 2:
+            x = strip_refs(x[2])
+        else:
+            break
+    v = const_val(x)
+    if isinstance(v, bytes):
+        try:
+            v = v.decode('utf8')
+        except UnicodeDecodeError:
+            v = None
+    if isinstance(v, str):
+        return v
+    return ('arg', x)
+
+
+def string_recipe(body, operand):
+    """the ordered pieces a String / &str value is made of — literals and ('arg', term) — for the spellings
+    format!(..), [a, b, c].concat(), String::new()/with_capacity() followed by push/push_str, x.to_owned()/to_string()/String::from(x).
+    None when the value is built some other way."""
+    term = body.origin(operand) if isinstance(operand, dict) else operand
+    t = strip_refs(mirlib.simplify(term))
+    for _ in range(6):
+        if is_call(t) and t[3] in ('must_use', 'as_str', 'deref', 'as_ref', 'borrow') and t[2]:
+            t = strip_refs(t[2][0])
+        else:
+            break
+    if is_call(t, name='format') and 'fmt' in t[1]:
+        tpl, args = fmt_of(body, t)
+        if tpl is None:
+            return None
+        out, ai = [], 0
+        for piece in tpl:
+            if piece == '{}':
+                out.append(_str_piece(args[ai]) if ai < len(args) else ('arg', ('x',)))
+                ai += 1
+            else:
+                out.append(piece)
+        return out
+    if is_call(t) and t[3] in ('concat', 'join') and t[2]:
+        if t[3] == 'join' and not (len(t[2]) > 1 and const_val(strip_refs(t[2][1])) == ''):
+            return None
+        arr = strip_refs(t[2][0])
+        while arr and arr[0] == 'cast' and len(arr) > 2:
+            arr = strip_refs(arr[2])
+        if arr and arr[0] == 'agg' and arr[1].get('kind') == 'array':
+            return [_str_piece(e) for e in arr[2]]
+        return None
+    if is_call(t) and t[3] in ('to_owned', 'to_string', 'from', 'into', 'clone') and len(t[2]) == 1:
+        return [_str_piece(t[2][0])]
+    if is_call(t) and t[3] in ('new', 'with_capacity') and 'String' in t[1] and len(t) > 4 and isinstance(t[4], dict) and t[4].get('dest'):
+        made = t[4]
+
+        def same_string(op_):
+            r_ = strip_refs(body.origin(op_))
+            return is_call(r_) and len(r_) > 4 and r_[4] is made
+        pushes = [(bb, tt) for bb, tt in body.calls() if tt.get('name') in ('push', 'push_str') and 'String' in (tt.get('fn') or '') and same_string(tt['args'][0])]
+        pushes.sort(key=lambda p_: len(body.dominators().get(p_[0], ())))
+        for a_, b_ in zip(pushes, pushes[1:]):
+            if not body.dominates(a_[0], b_[0]):
+                return None
+        if any(bb in body.reachable(body.succs(bb)[:1]) for bb, tt in pushes if body.succs(bb)):
+            return None  # a push inside a loop
+        return [_str_piece(body.origin(tt['args'][1])) for bb, tt in pushes]
+    return None
+
+
+def recipe_template(pieces):
+    """('a{}b', [arg terms]) for a recipe: literals joined, every non-literal piece shown as {}"""
+    if pieces is None:
+        return None, []
+    return ''.join(p if isinstance(p, str) else '{}' for p in pieces), [p[1] for p in pieces if not isinstance(p, str)]
